@@ -1,7 +1,7 @@
 SPECIFICATION Spec
 CONSTANTS
   Years = {2014, 2016, 2019, 2020, 2024, 2048, 2049}
-  Doys = {1, 2, 9, 10, 11, 19, 21, 29, 31, 32, 59, 60, 61, 274, 305, 315, 335, 345, 365, 366}
+  Doys = {1, 2, 9, 10, 11, 19, 21, 29, 31, 32, 59, 60, 61, 182, 213, 274, 305, 315, 335, 345, 365, 366}
   Millis = {0, 1, 43200000, 86399999}
   Micros = {0, 999}
 INVARIANT AllDecodersAgree
